@@ -754,6 +754,10 @@ func c08AllocBound(c *Ctx) {
 				c.ok(rule, key, w.ipos(in), "size is the length of data already held ("+w.shortTerm(x)+")")
 				return
 			}
+			if heldDataSize(size, 0) {
+				c.ok(rule, key, w.ipos(in), "size is a sum of lengths of data already held and constants ("+w.shortTerm(size)+"): the allocation is proportional to what is in memory")
+				return
+			}
 			bounded, _, _ := w.proveSite(fn, in, func(p *prover) []need {
 				l := p.linOf(size)
 				cap := lin{c: map[string]int64{}, k: 1 << 20}
@@ -799,6 +803,33 @@ func c08AllocBound(c *Ctx) {
 			c.undecided(rule, "positive-control", "-", "taint engine does not see Header.value as network-derived")
 		}
 	}
+}
+
+// heldDataSize: v is built from len(x) terms and non-negative constants by + only (joined by phis): a capacity hint
+// proportional to data that is already in memory.
+func heldDataSize(v ssa.Value, d int) bool {
+	if d > 8 {
+		return false
+	}
+	v = strip(v)
+	if k, ok := constInt(v); ok {
+		return k >= 0 && k <= 1<<16
+	}
+	if _, ok := lenOf(v); ok {
+		return true
+	}
+	switch x := v.(type) {
+	case *ssa.BinOp:
+		return x.Op == token.ADD && heldDataSize(x.X, d+1) && heldDataSize(x.Y, d+1)
+	case *ssa.Phi:
+		for _, e := range x.Edges {
+			if !heldDataSize(e, d+1) {
+				return false
+			}
+		}
+		return true
+	}
+	return false
 }
 
 func c08Discard(c *Ctx) {
